@@ -116,6 +116,7 @@ def root_of(base):
     """follow storage fields / reference wrappers / address-of down to either a list of element terms or a root symbol.
     Returns ("list", [terms]) or ("root", name)."""
     seen = 0
+    suffix = ""
     while True:
         seen += 1
         if seen > 40:
@@ -124,7 +125,11 @@ def root_of(base):
             raise Unresolved("not a storage: %r" % (base,))
         t = base[0]
         if t == "sym":
-            return ("root", base[1])
+            return ("root", str(base[1]) + suffix)
+        if t == "fld" and base[2] not in STORAGE_FIELDS and isinstance(base[1], tuple) and base[1] and base[1][0] in ("sym", "fld", "deref", "addr"):
+            suffix = "." + base[2] + suffix      # a member object of an operand (box.min_): part of the root's name
+            base = base[1]
+            continue
         if t in ("addr", "deref"):
             base = base[1]
             continue
